@@ -150,6 +150,14 @@ def plan(tier, seed):
                 for rep in range(reps if dim == 2 else max(1, reps // 2)):
                     cases.append({"kind": "thermal", "n": _grid(r, dim, tier), "plane": plane, "x": xc,
                                   "h": cyc(HCLS), "nu": nu, "rep": rep})
+    # ---- a few meshes far beyond the enumerated bound (thousands of elements, counts that are not powers of two): size
+    # thresholds inside the operators (chunking, buffers) only act there; normal-strain fields only, so that the doubled-shear
+    # finding does not taint these cases
+    big = [[70, 60, 0], [64, 65, 0], [17, 17, 15]] if quick else [[70, 60, 0], [64, 65, 0], [97, 43, 0], [130, 33, 0], [17, 17, 15], [16, 16, 17], [21, 13, 16]]
+    for g in big:
+        for kind, extra in (("strain", {"plane": "stress", "field": "normal", "x": XCLS[0], "nu": NUCLS[0]}),
+                            ("average", {"ndof": 2, "off": OFFS[0]})):
+            cases.append(dict({"kind": kind, "n": list(g), "h": HCLS[0], "rep": 0}, **extra))
     for i, c in enumerate(cases):
         c["id"] = i
     return cases
